@@ -1,5 +1,6 @@
 import LP.Props.C15
 import LP.Props.C15V
+import LP.Props.C15P
 #print axioms LP.QI.C15_add
 #print axioms LP.QI.C15_neg
 #print axioms LP.QI.C15_sub
@@ -10,3 +11,6 @@ import LP.Props.C15V
 #print axioms LP.QI.C15_real
 #print axioms LP.VI.endpointLt_fin
 #print axioms LP.VI.C15_vi_mul_general
+#print axioms LP.QI.sumPowers_encloses
+#print axioms LP.QI.polyValue_encloses
+#print axioms LP.VI.consistentInterval_sound
